@@ -822,3 +822,55 @@ func VerifC05_FilterLifecycle()  { vFilterLifecycle(3) }
 func VerifC05T_FilterLifecycle() { vNoMul = true; vFilterLifecycle(4) }
 func VerifC03_FilterLifecycle()  { vFilterLifecycle(2) }
 func VerifC14_FilterLifecycle()  { vFilterLifecycle(2) }
+
+// two queries of ONE filter value open at the same time with different per-query targets
+// (unsafe and typed): each keeps its own targets until it ends
+func VerifC03_TwoOpenQueriesDifferentTargets() {
+	W := vShapeFor(1)
+	p0, p1 := W.e[0].h, W.e[1].h
+	count := func(t Entity, needA bool) int {
+		n := 0
+		for j := 0; j < W.n; j++ {
+			if W.e[j].alive && W.e[j].has[cR1] && W.e[j].tgt[0] == t && (!needA || W.e[j].has[cA]) {
+				n++
+			}
+		}
+		return n
+	}
+	uf := NewUnsafeFilter(W.w, W.id[cR1])
+	qa := uf.Query(RelID(W.id[cR1], p0))
+	qb := uf.Query(RelID(W.id[cR1], p1))
+	na, nb, bad := 0, 0, 0
+	for qa.Next() {
+		na++
+		if qa.GetRelation(W.id[cR1]) != p0 {
+			bad++
+		}
+	}
+	for qb.Next() {
+		nb++
+		if qb.GetRelation(W.id[cR1]) != p1 {
+			bad++
+		}
+	}
+	vcheck("unsafe/each-query-keeps-its-targets", na == count(p0, false) && nb == count(p1, false) && bad == 0)
+	f := NewFilter2[vChild, vPos](W.w)
+	ta := f.Query(RelIdx(0, p0))
+	tb := f.Query(RelIdx(0, p1))
+	na, nb, bad = 0, 0, 0
+	for ta.Next() {
+		na++
+		if ta.GetRelation(0) != p0 {
+			bad++
+		}
+	}
+	for tb.Next() {
+		nb++
+		if tb.GetRelation(0) != p1 {
+			bad++
+		}
+	}
+	vcheck("typed/each-query-keeps-its-targets", na == count(p0, true) && nb == count(p1, true) && bad == 0)
+	vcheck("unlocked", !W.w.IsLocked())
+	vreach("end")
+}
